@@ -19,9 +19,17 @@ def check(pid, level, floor=1):
 
 # ---------------------------------------------------------------------------------- build sets
 
+# three extra builds that together switch on every legitimate non-default code path that can run on this host
+ALTS = ["gcc-O3+DNDEBUG+DTINYJAMBU_FORCE_C32",             # CMake's stock Release flags; the project's BACKEND_C32 option
+        "gcc-O2+D__BIG_ENDIAN__@nobzero",                  # byte-order-neutral paths; volatile-loop wipe
+        "clang-O2+std=c99+w+funsigned-char"]               # strict ISO C (no glibc extensions), the other signedness of char
+
+
 def build_set(ctx, names):
     """names: list of build names -> list of dict(tag, lib, cc, hflags)."""
     out = []
+    names = [x for n in names for x in (ALTS if n == "alts" else [n])]
+    names = [n for i, n in enumerate(names) if n not in names[:i]]
     for n in names:
         if n == "prod":
             p = ctx.prod()
@@ -113,7 +121,7 @@ def c01(ctx):
     load_replay(ctx)
     ctx.model_selfcheck()
     W, R, NL = ctx.q((24, 4, 12), (70, 16, 120))
-    builds = build_set(ctx, ctx.q(["prod", "gcc-O2", "clang-O2", "gcc-Os", "gcc-O2+D__BIG_ENDIAN__@nobzero", "asan-gcc"], ["prod"] + MATRIX + MATRIX_X + ["asan-gcc", "asan-clang"]))
+    builds = build_set(ctx, ctx.q(["prod", "gcc-O2", "clang-O2", "gcc-Os", "alts", "asan-gcc"], ["prod"] + MATRIX + MATRIX_X + ["asan-gcc", "asan-clang"]))
     run_harness_on(ctx, "h_aead.c", builds, ["--mode", "rt", "--p1", W, "--p2", R, "--p3", NL], ctx.q(6, 16))
     if ctx.thorough:
         # lengths >= 2^32: a 2^32+5 byte message encrypted and decrypted in place, each key size (exact round-trip oracle)
@@ -133,7 +141,7 @@ def c02(ctx):
     load_replay(ctx)
     ctx.model_selfcheck()
     W, R, NL = ctx.q((32, 4, 16), (70, 12, 150))
-    builds = build_set(ctx, ctx.q(["prod", "gcc-O0", "gcc-O2", "gcc-Os", "clang-O2", "clang-O3", "clang-Os", "gcc-O2+funsigned-char", "gcc-O3+DNDEBUG+DTINYJAMBU_FORCE_C32", "gcc-O2+D__BIG_ENDIAN__@nobzero", "asan-gcc"],
+    builds = build_set(ctx, ctx.q(["prod", "gcc-O0", "gcc-O2", "gcc-Os", "clang-O2", "clang-O3", "clang-Os", "gcc-O2+funsigned-char", "alts", "asan-gcc"],
                                   ["prod"] + MATRIX + MATRIX_X + ["asan-gcc", "asan-clang"]))
     # same seed and same case list for every build: build-independence = all of them equal the model
     run_harness_on(ctx, "h_aead.c", builds, ["--mode", "model", "--p1", W, "--p2", R, "--p3", NL], ctx.q(4, 16))
@@ -163,7 +171,7 @@ def c03(ctx):
     load_replay(ctx)
     ctx.model_selfcheck()
     W, R, NL = ctx.q((14, 1, 6), (40, 2, 40))
-    builds = build_set(ctx, ctx.q(["prod", "clang-O2", "gcc-O2+D__BIG_ENDIAN__@nobzero", "asan-gcc"], ["prod", "gcc-O2", "gcc-Os", "clang-O2", "clang-O3", "gcc-O2+D__BIG_ENDIAN__@nobzero", "gcc-O3+DNDEBUG+DTINYJAMBU_FORCE_C32", "asan-gcc", "asan-clang"]))
+    builds = build_set(ctx, ctx.q(["prod", "clang-O2", "alts", "asan-gcc"], ["prod", "gcc-O2", "gcc-Os", "clang-O2", "clang-O3", "alts", "asan-gcc", "asan-clang"]))
     run_harness_on(ctx, "h_aead.c", builds, ["--mode", "tamper", "--p1", W, "--p2", R, "--p3", NL], 16, timeout=3000)
     if ctx.thorough:
         # AD extended / truncated by exactly 2^32 bytes must be rejected (a 32-bit length somewhere would accept it)
@@ -187,7 +195,7 @@ def c04(ctx):
     load_replay(ctx)
     ctx.model_selfcheck()
     W, R, NL = ctx.q((20, 1, 40), (70, 3, 300))
-    builds = build_set(ctx, ctx.q(["prod", "gcc-O2", "clang-O2", "gcc-O2+D__BIG_ENDIAN__@nobzero", "asan-gcc"], ["prod", "gcc-O2", "gcc-O3", "gcc-Os", "clang-O2", "clang-O3", "gcc-O2+D__BIG_ENDIAN__@nobzero", "gcc-O3+DNDEBUG+DTINYJAMBU_FORCE_C32", "asan-gcc", "asan-clang"]))
+    builds = build_set(ctx, ctx.q(["prod", "gcc-O2", "clang-O2", "alts", "asan-gcc"], ["prod", "gcc-O2", "gcc-O3", "gcc-Os", "clang-O2", "clang-O3", "alts", "asan-gcc", "asan-clang"]))
     run_harness_on(ctx, "h_aead.c", builds, ["--mode", "zero,both", "--p1", W, "--p2", R, "--p3", NL], 16, timeout=3000)
     # dense length sweep 0..300 on the production object: one tag flip per length per variant
     run_harness_on(ctx, "h_aead.c", build_set(ctx, ["prod"]), ["--mode", "zero,both,sweep", "--p1", 0, "--p2", 1, "--p3", ctx.q(300, 4000)], 8,
@@ -210,10 +218,10 @@ def c08(ctx):
     load_replay(ctx)
     ctx.model_selfcheck()
     W, R, NL = ctx.q((24, 2, 12), (70, 8, 100))
-    builds = build_set(ctx, ctx.q(["prod", "gcc-O2", "clang-O2", "gcc-Os", "gcc-O2+D__BIG_ENDIAN__@nobzero", "asan-gcc"], ["prod"] + MATRIX + MATRIX_X + ["asan-gcc", "asan-clang"]))
+    builds = build_set(ctx, ctx.q(["prod", "gcc-O2", "clang-O2", "gcc-Os", "alts", "asan-gcc"], ["prod"] + MATRIX + MATRIX_X + ["asan-gcc", "asan-clang"]))
     run_harness_on(ctx, "h_aead.c", builds, ["--mode", "rt,siv", "--p1", W, "--p2", R, "--p3", NL], ctx.q(6, 16))
     W2, R2, NL2 = ctx.q((10, 1, 4), (28, 1, 30))
-    builds2 = build_set(ctx, ctx.q(["prod", "clang-O2", "gcc-O2+D__BIG_ENDIAN__@nobzero", "asan-gcc"], ["prod", "clang-O2", "clang-O3", "gcc-Os", "gcc-O2+D__BIG_ENDIAN__@nobzero", "gcc-O3+DNDEBUG+DTINYJAMBU_FORCE_C32", "asan-gcc", "asan-clang"]))
+    builds2 = build_set(ctx, ctx.q(["prod", "clang-O2", "alts", "asan-gcc"], ["prod", "clang-O2", "clang-O3", "gcc-Os", "alts", "asan-gcc", "asan-clang"]))
     run_harness_on(ctx, "h_aead.c", builds2, ["--mode", "tamper,siv", "--p1", W2, "--p2", R2, "--p3", NL2], 16, hname="h_aead-t", timeout=3000)
     if ctx.thorough:
         run_harness_on(ctx, "h_aead.c", build_set(ctx, ["prod"]), ["--mode", "tamper,siv,hugetamper"], 3, hname="h_aead-huge", timeout=5000)
@@ -235,7 +243,7 @@ def c09(ctx):
     load_replay(ctx)
     ctx.model_selfcheck()
     W, R, NL = ctx.q((32, 3, 16), (70, 10, 150))
-    builds = build_set(ctx, ctx.q(["prod", "gcc-O2", "clang-O3", "gcc-Os", "gcc-O2+D__BIG_ENDIAN__@nobzero", "gcc-O3+DNDEBUG+DTINYJAMBU_FORCE_C32", "asan-gcc"], ["prod"] + MATRIX + MATRIX_X + ["asan-gcc", "asan-clang"]))
+    builds = build_set(ctx, ctx.q(["prod", "gcc-O2", "clang-O3", "gcc-Os", "alts", "asan-gcc"], ["prod"] + MATRIX + MATRIX_X + ["asan-gcc", "asan-clang"]))
     run_harness_on(ctx, "h_aead.c", builds, ["--mode", "model,pairs,siv", "--p1", W, "--p2", R, "--p3", NL], ctx.q(4, 16))
     run_harness_on(ctx, "h_aead.c", build_set(ctx, ["prod"]), ["--mode", "rt,siv,hugemsg", "--p3", ctx.q(22, 0)], 3, hname="h_aead-hugemsg", timeout=8000)
     # positive control: the same pair generator through plain AEAD must show related bodies
@@ -376,7 +384,7 @@ def c10(ctx):
     load_replay(ctx)
     ctx.model_selfcheck()
     N, reps, NL = ctx.q((200, 1, 24), (1500, 6, 400))
-    builds = build_set(ctx, ctx.q(["prod", "gcc-O0", "gcc-O2", "clang-O2", "clang-O3", "gcc-O3+DNDEBUG+DTINYJAMBU_FORCE_C32", "gcc-O2+D__BIG_ENDIAN__@nobzero", "asan-gcc", "msan"],
+    builds = build_set(ctx, ctx.q(["prod", "gcc-O0", "gcc-O2", "clang-O2", "clang-O3", "alts", "asan-gcc", "msan"],
                                   ["prod"] + MATRIX + MATRIX_X + ["asan-gcc", "asan-clang", "msan"]))
     run_hash(ctx, builds, ["--mode", "hash", "--p1", N, "--p2", reps, "--p3", NL], ctx.q(4, 16), "h_hash")
     if ctx.thorough:
@@ -397,7 +405,7 @@ def c11(ctx):
     load_replay(ctx)
     ctx.model_selfcheck()
     N, NZ, NR = ctx.q((14, 9, 3000), (20, 11, 60000))
-    builds = build_set(ctx, ctx.q(["prod", "clang-O2", "gcc-O3+DNDEBUG+DTINYJAMBU_FORCE_C32", "gcc-O2+D__BIG_ENDIAN__@nobzero", "asan-gcc", "msan"], ["prod", "gcc-O0", "gcc-Os", "clang-O2", "clang-O3", "clang-Os", "gcc-O3+DNDEBUG", "clang-O3+DNDEBUG", "gcc-O2+DTINYJAMBU_FORCE_C32", "clang-O2+DTINYJAMBU_FORCE_C32", "gcc-O2+funsigned-char", "asan-gcc", "asan-clang", "msan"]))
+    builds = build_set(ctx, ctx.q(["prod", "clang-O2", "alts", "asan-gcc", "msan"], ["prod", "gcc-O0", "gcc-Os", "clang-O2", "clang-O3", "clang-Os", "gcc-O3+DNDEBUG", "clang-O3+DNDEBUG", "gcc-O2+DTINYJAMBU_FORCE_C32", "clang-O2+DTINYJAMBU_FORCE_C32", "gcc-O2+funsigned-char", "alts", "asan-gcc", "asan-clang", "msan"]))
     run_hash(ctx, builds, ["--mode", "stream", "--p1", N, "--p2", NZ, "--p3", NR], 16, "h_hash-s")
     if ctx.thorough:
         run_hash_huge(ctx, builds[0], [2, 3])
@@ -417,7 +425,7 @@ def c12(ctx):
     load_replay(ctx)
     ctx.model_selfcheck()
     K, NR = ctx.q((200, 150), (400, 20000))
-    builds = build_set(ctx, ctx.q(["prod", "gcc-O2", "clang-O2", "gcc-O3+DNDEBUG+DTINYJAMBU_FORCE_C32", "gcc-O2+D__BIG_ENDIAN__@nobzero", "asan-gcc", "msan"], ["prod"] + MATRIX + MATRIX_X + ["asan-gcc", "asan-clang", "msan"]))
+    builds = build_set(ctx, ctx.q(["prod", "gcc-O2", "clang-O2", "alts", "asan-gcc", "msan"], ["prod"] + MATRIX + MATRIX_X + ["asan-gcc", "asan-clang", "msan"]))
     run_hash(ctx, builds, ["--mode", "hmac", "--p1", K, "--p3", NR], ctx.q(8, 16), "h_hash-m")
     if ctx.thorough:
         run_hash_huge(ctx, builds[0], [1])
@@ -436,7 +444,7 @@ def c13(ctx):
     load_replay(ctx)
     ctx.model_selfcheck()
     NS = ctx.q(160, 3200)
-    builds = build_set(ctx, ctx.q(["prod", "clang-O2", "gcc-O3+DNDEBUG+DTINYJAMBU_FORCE_C32", "gcc-O2+D__BIG_ENDIAN__@nobzero", "asan-gcc", "msan"], ["prod", "gcc-O0", "gcc-O2", "gcc-Os", "clang-O2", "clang-O3", "clang-Os", "gcc-O3+DNDEBUG", "clang-O3+DNDEBUG", "gcc-O2+DTINYJAMBU_FORCE_C32", "clang-O2+DTINYJAMBU_FORCE_C32", "gcc-O2+funsigned-char", "asan-gcc", "asan-clang", "msan"]))
+    builds = build_set(ctx, ctx.q(["prod", "clang-O2", "alts", "asan-gcc", "msan"], ["prod", "gcc-O0", "gcc-O2", "gcc-Os", "clang-O2", "clang-O3", "clang-Os", "gcc-O3+DNDEBUG", "clang-O3+DNDEBUG", "gcc-O2+DTINYJAMBU_FORCE_C32", "clang-O2+DTINYJAMBU_FORCE_C32", "gcc-O2+funsigned-char", "alts", "asan-gcc", "asan-clang", "msan"]))
     run_harness_on(ctx, "h_kdf.c", builds, ["--mode", "hkdf", "--p1", NS], 16, timeout=3000)
     abi.ilp32_monitor(ctx, ['hkdf'])
     ctx.rule = ("one case = one (key, salt, info) stream: lengths from {0(NULL),1,31,32,33,64,65,100}^3 (first 512 indices, enumerated) then random; "
@@ -454,7 +462,7 @@ def c14(ctx):
     load_replay(ctx)
     ctx.model_selfcheck()
     D, NR = ctx.q((100, 150), (200, 12000))
-    builds = build_set(ctx, ctx.q(["prod", "clang-O2", "gcc-O3+DNDEBUG+DTINYJAMBU_FORCE_C32", "gcc-O2+D__BIG_ENDIAN__@nobzero", "asan-gcc", "msan"], ["prod", "gcc-O0", "gcc-O2", "gcc-Os", "clang-O2", "clang-O3", "clang-Os", "gcc-O3+DNDEBUG", "clang-O3+DNDEBUG", "gcc-O2+DTINYJAMBU_FORCE_C32", "clang-O2+DTINYJAMBU_FORCE_C32", "gcc-O2+funsigned-char", "asan-gcc", "asan-clang", "msan"]))
+    builds = build_set(ctx, ctx.q(["prod", "clang-O2", "alts", "asan-gcc", "msan"], ["prod", "gcc-O0", "gcc-O2", "gcc-Os", "clang-O2", "clang-O3", "clang-Os", "gcc-O3+DNDEBUG", "clang-O3+DNDEBUG", "gcc-O2+DTINYJAMBU_FORCE_C32", "clang-O2+DTINYJAMBU_FORCE_C32", "gcc-O2+funsigned-char", "alts", "asan-gcc", "asan-clang", "msan"]))
     run_harness_on(ctx, "h_kdf.c", builds, ["--mode", "pbkdf2", "--p1", D, "--p3", NR], 16, timeout=3000)
     if ctx.thorough:
         run_harness_on(ctx, "h_kdf.c", builds[:1], ["--mode", "pbkdf2huge"], 1, timeout=3000, hname="h_kdf-huge")
@@ -478,7 +486,7 @@ def c15(ctx):
     load_replay(ctx)
     ctx.model_selfcheck()
     NH, NR = ctx.q((2500, 200), (100000, 4000))
-    builds = build_set(ctx, ctx.q(["prod", "clang-O2", "gcc-O3+DNDEBUG+DTINYJAMBU_FORCE_C32", "gcc-O2+D__BIG_ENDIAN__@nobzero", "asan-gcc", "msan"], ["prod", "gcc-O0", "gcc-O2", "gcc-Os", "clang-O2", "clang-O3", "clang-Os", "gcc-O3+DNDEBUG", "clang-O3+DNDEBUG", "gcc-O2+DTINYJAMBU_FORCE_C32", "clang-O2+DTINYJAMBU_FORCE_C32", "gcc-O2+funsigned-char", "asan-gcc", "asan-clang", "msan"]))
+    builds = build_set(ctx, ctx.q(["prod", "clang-O2", "alts", "asan-gcc", "msan"], ["prod", "gcc-O0", "gcc-O2", "gcc-Os", "clang-O2", "clang-O3", "clang-Os", "gcc-O3+DNDEBUG", "clang-O3+DNDEBUG", "gcc-O2+DTINYJAMBU_FORCE_C32", "clang-O2+DTINYJAMBU_FORCE_C32", "gcc-O2+funsigned-char", "alts", "asan-gcc", "asan-clang", "msan"]))
     if ctx.thorough:       # full history count on the production and ASan objects, a fifth on the other builds
         run_harness_on(ctx, "h_prng.c", [b for b in builds if b["tag"] in ("prod-cmake-Release", "asan-gcc")], ["--mode", "model", "--p1", NH, "--p2", NR], 16, timeout=3000)
         run_harness_on(ctx, "h_prng.c", [b for b in builds if b["tag"] not in ("prod-cmake-Release", "asan-gcc")], ["--mode", "model", "--p1", NH // 5, "--p2", NR // 5], 16, timeout=3000)
@@ -504,7 +512,7 @@ def c16(ctx):
     load_replay(ctx)
     L, NR = ctx.q((4, 1500), (6, 40000))
     # the matrix builds are compiled with -DRWEATHER_TINYJAMBU_VERIF (counter hook); the cmake production build is not
-    builds = build_set(ctx, ctx.q(["prod", "gcc-O2", "clang-O2", "gcc-O3+DNDEBUG+DTINYJAMBU_FORCE_C32", "gcc-O2+D__BIG_ENDIAN__@nobzero", "asan-gcc"], ["prod", "gcc-O0", "gcc-O2", "gcc-Os", "clang-O2", "clang-O3", "gcc-O3+DNDEBUG", "clang-O3+DNDEBUG", "gcc-O2+DTINYJAMBU_FORCE_C32", "asan-gcc", "asan-clang"]))
+    builds = build_set(ctx, ctx.q(["prod", "gcc-O2", "clang-O2", "alts", "asan-gcc"], ["prod", "gcc-O0", "gcc-O2", "gcc-Os", "clang-O2", "clang-O3", "gcc-O3+DNDEBUG", "clang-O3+DNDEBUG", "gcc-O2+DTINYJAMBU_FORCE_C32", "alts", "asan-gcc", "asan-clang"]))
     if ctx.thorough:
         # the 1.1 M-sequence enumeration runs on the production object; other builds take length <= 5
         run_harness_on(ctx, "h_prng.c", builds[:1], ["--mode", "budget", "--p1", L, "--p3", NR], 16, timeout=3000, hname="h_prng-b")
@@ -531,7 +539,10 @@ def c17(ctx):
     load_replay(ctx)
     ctx.model_selfcheck()
     NR = ctx.q(300, 100000)
-    builds = build_set(ctx, ctx.q(["prod", "clang-O2", "gcc-O3+DNDEBUG+DTINYJAMBU_FORCE_C32", "gcc-O2+D__BIG_ENDIAN__@nobzero", "asan-gcc", "msan"], ["prod", "gcc-O0", "gcc-O2", "gcc-Os", "clang-O2", "clang-O3", "clang-Os", "gcc-O3+DNDEBUG", "clang-O3+DNDEBUG", "gcc-O2+DTINYJAMBU_FORCE_C32", "clang-O2+DTINYJAMBU_FORCE_C32", "gcc-O2+funsigned-char", "asan-gcc", "asan-clang", "msan"]))
+    builds = build_set(ctx, ctx.q(["prod", "clang-O2", "alts", "asan-gcc", "msan"], ["prod", "gcc-O0", "gcc-O2", "gcc-Os", "clang-O2", "clang-O3", "clang-Os", "gcc-O3+DNDEBUG", "clang-O3+DNDEBUG", "gcc-O2+DTINYJAMBU_FORCE_C32", "clang-O2+DTINYJAMBU_FORCE_C32", "gcc-O2+funsigned-char", "alts", "asan-gcc", "asan-clang", "msan"]))
+    # the NULL-callback / plain-init paths end in the system source: also on the getentropy() configuration of it
+    ge = ctx.make_config("getentropy", BASE_CFG + ["HAVE_GETENTROPY"])
+    builds.append({"tag": "gcc-O2-cfg-getentropy", "lib": ctx.lib("gcc-O2-cfg-getentropy", "gcc", ["-O2"], cfg=ge), "cc": "gcc", "hflags": []})
     run_harness_on(ctx, "h_prng.c", builds, ["--mode", "faults", "--p3", NR], 16, timeout=3000, hname="h_prng-f")
     if ctx.thorough:
         # personalisation string of 2^32+5 bytes: status, request count, output against the model (minutes)
